@@ -1,7 +1,7 @@
 (* C11 -- power and energy agree across train, consist and locomotive levels. Pinned statements only. *)
 From Coq Require Import Reals List Bool.
-From AltModel Require Import Num Interp Powertrain Loco Consist TrainEnergy.
-From AltProofs Require Import NumR ConsistP C10P C01P C11P.
+From AltModel Require Import Num Interp Powertrain Loco Consist TrainEnergy Resist Braking TrainStep TrainFull.
+From AltProofs Require Import NumR ConsistP C10P C01P C11P TrainFullP.
 Import ListNotations.
 Open Scope R_scope.
 
@@ -32,3 +32,20 @@ Theorem C11_trip_outputs : forall (c : ConsistR) annualize days, rollup c ->
   (forall d, d <> 0 -> scaling_factor true (Some d) * d = 36525 / 100) /\
   scaling_factor true None = 36525 / 100.
 Proof. exact trip_outputs. Qed.
+
+(* ---- the WHOLE simulation step (TrainFull.v: train dynamics + consist + locomotives) ---- *)
+
+(* one whole SetSpeedTrainSim step is one step of the bookkeeping above, with the wheel power the train
+   model chose under the limits the consist published *)
+Theorem C11_whole_set_speed_step : forall (e : Env (F:=R)) times speeds fmax st cache (c c' : ConsistR) st'' cache',
+  ss_full_step e times speeds fmax ((st, cache), c) = Ok ((st'', cache'), c') ->
+  exists p dt, tstep (te_of st, c) (p, dt) = Ok (te_of st'', c') /\ p = w_pwr_whl_out (ts_w st'').
+Proof. exact ss_full_step_is_tstep. Qed.
+
+(* hence along every whole set-speed run (any route, trace, train, consist) the three levels agree *)
+Theorem C11_whole_set_speed_run : forall (e : Env (F:=R)) times speeds fmax n x x',
+  cinv (snd x) -> levels_agree (te_of (fst (fst x)), snd x) ->
+  (forall k y, (1 <= k <= n)%nat -> ss_full_run k e times speeds fmax x = Ok y -> limits_nonneg (snd y)) ->
+  ss_full_run n e times speeds fmax x = Ok x' ->
+  cinv (snd x') /\ levels_agree (te_of (fst (fst x')), snd x').
+Proof. exact ss_full_run_levels. Qed.
